@@ -63,10 +63,20 @@ func c10Documents(tier string) []c10Doc {
 	}
 	// string contents
 	for _, sc := range c10Strings() {
+		// (a) positions that only end up in comments / the embedded document
 		d := baseDoc()
 		at(d, "info")["description"] = sc.S
+		at(d, "info")["termsOfService"] = sc.S
+		d["x-ext"] = J{"k": sc.S, "l": A{sc.S}}
+		at(d, "paths", "/a", "get")["x-op"] = sc.S
+		at(d, "paths", "/a", "get", "responses")["200"] = J{"description": sc.S, "schema": J{"$ref": "#/definitions/Pet"}}
+		at(d, "definitions", "Pet")["x-model-ext"] = sc.S
+		out = append(out, c10Doc{Name: "string-doc:" + sc.Name, Doc: d})
+		// (b) every free-text position, including those rendered into Go code (generation may refuse)
+		d = baseDoc()
+		at(d, "info")["description"] = sc.S
 		at(d, "paths", "/a", "get")["summary"] = sc.S
-		at(d, "definitions", "Pet", "properties", "name")["default"] = sc.S
+		at(d, "definitions", "Pet", "properties")["note"] = J{"type": "string", "default": sc.S}
 		at(d, "definitions", "Pet", "properties", "kind")["enum"] = A{"cat", sc.S}
 		at(d, "definitions", "Pet")["description"] = sc.S
 		d["x-ext"] = J{"k": sc.S}
@@ -104,7 +114,7 @@ func c10Documents(tier string) []c10Doc {
 	}
 	base := append([]c10Doc{}, out...)
 	for _, d := range base {
-		if strings.HasPrefix(d.Name, "fam:") || strings.HasPrefix(d.Name, "string:") {
+		if strings.HasPrefix(d.Name, "fam:") || strings.HasPrefix(d.Name, "string") {
 			out = append(out, c10Doc{Name: d.Name + " [yaml]", Doc: d.Doc, YAML: true, Mode: "minimal"})
 		}
 	}
@@ -178,6 +188,19 @@ func RunC10(tier, replay string) int {
 		}
 		docs = []c10Doc{rep.Case}
 	}
+	// every document of the universe must be a valid spec: otherwise the universe itself is wrong
+	okDoc := make([]bool, len(docs))
+	parallel(len(docs), runtime.NumCPU(), func(_, i int) {
+		if i > 0 && docs[i].Mode != "minimal" || docs[i].YAML {
+			okDoc[i] = true // same document as its minimal/JSON twin
+			return
+		}
+		if err := validSpec(docs[i].Doc); err != nil {
+			r.HarnessError("document %s of the universe is not a valid spec: %v", docs[i].Name, err)
+			return
+		}
+		okDoc[i] = true
+	})
 	specs := make([]ServerSpec, len(docs))
 	for i, d := range docs {
 		var args []string
@@ -199,6 +222,7 @@ func RunC10(tier, replay string) int {
 		if c.GenErr != "" {
 			// generation refusing a document is C01's business; only counted here
 			r.Count("generation_errors(C01)", 1)
+			r.Note("generation error %s [%s]: %s", d.Name, d.Mode, trunc(c.GenErr, 300))
 			r.CaseKeyed(key, sample, false, "generation-error")
 			return
 		}
@@ -280,9 +304,25 @@ func RunC10(tier, replay string) int {
 			r.CaseKeyed(key, sample, true, outcome)
 			return
 		}
-		if d.Mode != "minimal" && hasRefCycle(d.Doc) {
-			// recursive references can only be compared by name, which only minimal flatten preserves
-			r.Count("flat_comparison_skipped(recursive refs under full/expand)", 1)
+		if hasRefCycle(d.Doc) {
+			// recursive references can only be compared by name, which only minimal flatten preserves;
+			// the expander unrolls cycles to an unspecified depth, so no expansion is used here
+			if d.Mode != "minimal" {
+				r.Count("flat_comparison_skipped(recursive refs under full/expand)", 1)
+				r.CaseKeyed(key, sample, true, outcome)
+				return
+			}
+			ign := map[string]bool{"x-go-gen-location": true}
+			var inJ, flJ J
+			_ = json.Unmarshal(in.Raw(), &inJ)
+			_ = json.Unmarshal(flat, &flJ)
+			for _, sec := range []string{"paths", "definitions", "parameters", "responses", "security", "securityDefinitions"} {
+				if fd := firstDiff(normalizeOrNil(dropKeys(inJ[sec], ign)), normalizeOrNil(dropKeys(flJ[sec], ign)), "/"+sec); fd != "" {
+					outcome = "flat-differs"
+					viol("FlatSwaggerJSON", "flattened document (recursive, compared by name) differs from the input at "+fd, nil)
+					break
+				}
+			}
 			r.CaseKeyed(key, sample, true, outcome)
 			return
 		}
